@@ -168,6 +168,9 @@ def judge(ck, cases, results):
                 oidx.append(i)
             elif c.get('_inner') is not None and kind == 2:
                 ck.violation('impl-violation', {k: v for k, v in c.items() if not k.startswith('_')}, impl=r, why='panic')
+            if c.get('_fam') == 'from-extensible' and not (kind == 0 and obs is None) and kind != 1:
+                ck.violation('impl-violation', {k: v for k, v in c.items() if not k.startswith('_')}, impl=r, constraint=c['_text'], type=c['cs'],
+                             why='an extensible permitted-alphabet constraint is emitted as a closed alphabet (X.691 10.3.10: not PER-visible)')
             if c.get('_fam') == 'other' and kind == 0 and obs is not None:
                 ck.violation('impl-violation', {k: v for k, v in c.items() if not k.startswith('_')}, impl=r,
                              why='a string type that is not known-multiplier got an alphabet annotation')
@@ -416,6 +419,17 @@ def run(ck):
             if order:
                 cs.reverse()
             cases.append({'op': 'alphabet', 'cs': t, 'constraints': cs, '_inner': inner, '_ops': ops, '_fam': 'from,size'})
+        for _ in range(n // 5):
+            # an extensible permitted alphabet -- `(FROM (..), ...)` -- is not PER-visible (X.691 10.3.10): alone no annotation,
+            # next to a second, closed FROM only that one
+            inner, ops = rand_inner(ck.rng, chars, True)
+            cases.append({'op': 'alphabet', 'cs': t, 'constraints': [{'set': G.E(G.alpha(inner)), 'ext': True}], '_fam': 'from-extensible',
+                          '_text': '(FROM (%s), ...)' % G.t_eos(inner)})
+            inner2, ops2 = rand_inner(ck.rng, chars, True)
+            cs = [{'set': G.E(G.alpha(inner)), 'ext': True}, {'set': G.E(G.alpha(inner2)), 'ext': False}]
+            if ck.rng.random() < 0.5:
+                cs.reverse()
+            cases.append({'op': 'alphabet', 'cs': t, 'constraints': cs, '_inner': inner2, '_ops': ops2, '_fam': 'from-extensible+closed'})
         for _ in range(n // 10):
             # FROM (..) EXCEPT "string": removing one string value does not change the permitted alphabet (known finding when it does)
             inner, ops = rand_inner(ck.rng, chars, True)
@@ -444,6 +458,10 @@ def run(ck):
                 continue
             src = 'M DEFINITIONS AUTOMATIC TAGS ::= BEGIN\nAa ::= %s %s\nBb ::= SEQUENCE { b %s %s }\nEND\n' % (c['cs'], text, c['cs'], text)
             e2e.append({'op': 'compile', 'sources': [src], '_want': parse_from(r['ok'])})
+    for c, r in list(zip(cases, res)):
+        if c.get('_fam') == 'from-extensible' and 'ok' in r and '\t' not in c['_text'] and ck.rng.random() < 0.25:
+            src = 'M DEFINITIONS AUTOMATIC TAGS ::= BEGIN\nAa ::= %s %s\nBb ::= SEQUENCE { b %s %s }\nEND\n' % (c['cs'], c['_text'], c['cs'], c['_text'])
+            e2e.append({'op': 'compile', 'sources': [src], '_want': None})
     judge_e2e(ck, e2e, run_harness(e2e))
     inc = inclusion_cases(ck, 220 if ck.tier == 'quick' else 4000)
     if inc:
